@@ -176,3 +176,77 @@ def near(values, lo, hi):
                 cands.add(x)
     cands = sorted(cands)
     return st.one_of(st.sampled_from(cands), st.integers(lo, hi))
+
+
+# ------------------------------------------------------------------------------------------------ configurators
+CFG_KINDS = ["cAny", "cAny", "cAny", "cXor", "cXor", "Any", "Xor", "All", "AtMost", "AtLeast", "XNor", "Imply", "Imply"]
+
+
+@st.composite
+def configurator_spec(draw, min_items=3, max_items=7, max_rules=4, explicit_p=60, allow_int=False):
+    """{"k": "Stingy", "id": ..., "c": [rules]} over boolean items"""
+    n_items = draw(st.integers(min_items, max_items))
+    items = BOOL_IDS[:n_items]
+    counter = [0]
+
+    def new_id():
+        counter[0] += 1
+        return ("R%d" % counter[0]) if draw(st.integers(0, 99)) < explicit_p else None
+
+    def leaf(i):
+        l = {"k": "leaf", "id": i, "b": [0, 1]}
+        if draw(st.integers(0, 2)) == 0:
+            l["str"] = True
+        return l
+
+    def leaves(lo, hi):
+        hi = min(hi, n_items)
+        lo = min(lo, hi)
+        ids = draw(st.lists(st.sampled_from(items), min_size=lo, max_size=hi, unique=True))
+        return [leaf(i) for i in ids]
+
+    def rule(depth, kinds=CFG_KINDS):
+        kind = draw(st.sampled_from(kinds))
+        if kind in ("cAny", "cXor"):
+            ch = leaves(2, 5)
+            if depth > 0 and draw(st.integers(0, 4)) == 0:
+                ch.append(rule(depth - 1, ["All", "Any", "AtMost", "Xor"]))
+            node = {"k": kind, "c": ch, "id": new_id()}
+            r = draw(st.integers(0, 9))
+            lids = [c["id"] for c in ch if c["k"] == "leaf"]
+            if r <= 6 and lids:
+                node["default"] = [draw(st.sampled_from(lids))]
+            elif r == 7:
+                node["default"] = [draw(st.sampled_from(items))]     # possibly not among the children
+            else:
+                node["default"] = None
+            return node
+        if kind == "Imply":
+            cond = leaf(draw(st.sampled_from(items))) if draw(st.booleans()) else \
+                {"k": draw(st.sampled_from(["All", "Any"])), "c": leaves(1, 3), "id": new_id()}
+            r = draw(st.integers(0, 3))
+            if r == 0:
+                cons = leaf(draw(st.sampled_from(items)))
+            elif r == 1 or depth == 0:
+                cons = {"k": draw(st.sampled_from(["All", "Any", "Xor"])), "c": leaves(1, 3), "id": new_id()}
+            else:
+                cons = rule(depth - 1, ["cAny", "cXor"])
+            if cond["k"] == "leaf" and cons["k"] == "leaf" and cond["id"] == cons["id"]:
+                cons = {"k": "Any", "c": leaves(2, 3), "id": new_id()}
+            return {"k": "Imply", "c": [cond, cons], "id": new_id()}
+        ch = leaves(1, 4)
+        if depth > 0 and draw(st.integers(0, 3)) == 0:
+            ch.append(rule(depth - 1, ["cAny", "cXor", "Any", "All", "AtMost"]))
+        node = {"k": kind, "c": ch, "id": new_id()}
+        if kind == "AtLeast":
+            node["v"] = draw(st.integers(1, len(ch)))
+            node["s"] = None   # an explicit sign changes the generated id (str(sign) is hashed), see DESIGN ledger
+        elif kind == "AtMost":
+            node["v"] = draw(st.integers(0, len(ch)))
+        return node
+
+    rules = [rule(1) for _ in range(draw(st.integers(1, max_rules)))]
+    if draw(st.integers(0, 5)) == 0:
+        rules.append(leaf(draw(st.sampled_from(items))))       # a bare item as top-level rule
+    cid = draw(st.sampled_from(["main", "cfg", None]))
+    return {"k": "Stingy", "id": cid, "c": rules}
